@@ -226,6 +226,25 @@ func checkC14(c *run.Ctx) {
 				ok = false
 			}
 		}
+		// the verifying side builds the same bytes from the same content, whatever else its env holds - also
+		// variables that happen to be called like the signed fields
+		if sig0, _, err := signStep(kp, base, repo, copyEnv(penv0)); err == nil {
+			venv := copyEnv(penv0)
+			for _, n := range []string{"command", "env", "plugins", "matrix", "repository_url", "UNRELATED"} {
+				if _, has := venv[n]; !has {
+					venv[n] = "unrelated " + n
+				}
+			}
+			vp, verr := verifyStep(kp.Verifier, sig0, base, repo, venv)
+			c.Eval(1)
+			if verr != nil || string(vp) != string(p0) {
+				c.Violation(id, map[string]any{"what": fmt.Sprintf("Verify built a different payload than Sign for the same step, repository and pipeline env (the verification env also holds unrelated variables named like the signed fields); err=%v", verr),
+					"payload_sign": clip(string(p0), 3000), "payload_verify": clip(string(vp), 3000)})
+				ok = false
+				return
+			}
+			c.Count("verify_payload_equals_sign_payload", 1)
+		}
 		// ---- must collide
 		mustEqual("collide:repeat", observe("collide:repeat", base, penv, repo, kp))
 		for k := 0; k < 2; k++ {
